@@ -215,10 +215,14 @@ static void run_frame(const json &sc) {
 //        {"o":"rsp","raw":"<id as JSON text, or empty: no id member>","kind":"res"|"err"|"req"}
 //                                                      a result / error response (or an incoming request) whose id matches no
 //                                                      waiting request: null, string, array, fraction, out of int range, ...
+//        {"o":"inreq","m":"sync"|"async"|"nosuch","id":n}  the PEER sends a request with its own id n (the Rpc serves "sync" at once,
+//                                                      "async" returns false and is answered by a later "respond" step, or never)
+//        {"o":"respond","j":n}                         Rpc::respond() for the n-th request the async service has received
 //        {"o":"adv","u":1}                            advance the virtual clock by u units of 1000/T ms, let the loop run
 //        {"o":"cleanup"}
 //   BODYOP ["req"] | ["rsp", k]   (k = 0: the request that is being completed, i.e. a duplicate)
 // Events: Begin{N,T,t,src} Req{k,id,cb,t} Rsp{k,c,v} RspEnd{r} Cb{k,c,v} CbEnd{k} Adv{t} AdvEnd Cleanup Reset
+//         InReq{id,m} .. InReqEnd{r}   Respond{j,id} .. RespondEnd   PeerRsp{id,c} (what the peer receives back)
 struct RpcExec {
     tbox::event::Loop *loop = nullptr;
     ProtoPtr proto, peer;
@@ -232,14 +236,34 @@ struct RpcExec {
     int settle = 0; bool adv_open = false; bool cleaned = false;
     int val_seq = 100;
 
-    void deliver(const Bytes &b) {   // peer -> Rpc, through the users' loop
+    void deliver(const Bytes &b, const char *end_event = "RspEnd") {   // peer -> Rpc, through the users' loop
         Bytes buf = b; ssize_t last = 0;
         while (!buf.empty()) {
             std::unique_ptr<uint8_t[]> blk(new uint8_t[buf.size()]); memcpy(blk.get(), buf.data(), buf.size());
             last = proto->onRecvData(blk.get(), buf.size());
             if (last > 0 && (size_t)last <= buf.size()) { buf.erase(buf.begin(), buf.begin() + last); if (f == "packet") break; } else break;
         }
-        vh::T().line("{\"e\":\"RspEnd\",\"r\":" + std::to_string((long long)last) + "}");
+        vh::T().line(std::string("{\"e\":\"") + end_event + "\",\"r\":" + std::to_string((long long)last) + "}");
+    }
+    // the other direction: the peer sends a request with ITS id (the numbers overlap with ours) for the method "sync" (the service
+    // answers at once), "async" (the service returns false; answered by a later "respond" step or never) or an unknown method
+    std::vector<int> async_ids; std::vector<bool> async_done;
+    void do_inreq(const std::string &m, int id) {
+        if (cleaned) return;
+        to_rpc.clear();
+        json params = {{"q", id}};
+        peer->sendRequest(id, m, params);
+        vh::T().line("{\"e\":\"InReq\",\"id\":" + std::to_string(id) + ",\"m\":\"" + m + "\"}");
+        Bytes b = to_rpc;
+        deliver(b, "InReqEnd");
+    }
+    void do_respond(size_t j) {
+        if (cleaned || j < 1 || j > async_ids.size() || async_done[j - 1]) return;
+        async_done[j - 1] = true;
+        vh::T().line("{\"e\":\"Respond\",\"j\":" + std::to_string(j) + ",\"id\":" + std::to_string(async_ids[j - 1]) + "}");
+        json r = {{"job", (int)j}};
+        rpc->respond(async_ids[j - 1], r);
+        vh::T().line("{\"e\":\"RespondEnd\"}");
     }
     Bytes frame_text(const std::string &t) {
         Bytes b;
@@ -311,6 +335,10 @@ struct RpcExec {
             if (cleaned) return;
             if (op.contains("raw")) do_rsp_raw(op["raw"].get<std::string>(), op.value("kind", std::string("res")), next_val());
             else do_rsp_k(op.at("k").get<size_t>(), op.value("kind", std::string("res")), op.contains("val") ? op["val"].get<int>() : next_val());
+        } else if (o == "inreq") {
+            do_inreq(op.value("m", std::string("sync")), op.value("id", 1));
+        } else if (o == "respond") {
+            do_respond(op.value("j", (size_t)1));
         } else if (o == "adv") {
             g_vnow += (uint64_t)op.value("u", 1) * unit_ms;
             vh::T().line("{\"e\":\"Adv\",\"t\":" + std::to_string((long long)g_vnow) + "}");
@@ -346,6 +374,8 @@ static void run_rpc(const json &sc) {
     x.proto = make_proto(x.f); x.peer = make_proto(x.f);
     x.rpc.reset(new Rpc(x.loop));
     x.rpc->initialize(x.proto.get(), N);
+    x.rpc->addService("sync", [](int id, const tbox::Json &, int &errcode, tbox::Json &result) { errcode = 0; result = {{"s", id}}; return true; });
+    x.rpc->addService("async", [&x](int id, const tbox::Json &, int &, tbox::Json &) { x.async_ids.push_back(id); x.async_done.push_back(false); return false; });
     // Rpc -> peer: the peer decodes what the Rpc sends (requests) with its own proto instance
     x.proto->setSendCallback([&x](const void *p, size_t n) {
         Bytes buf((const uint8_t *)p, (const uint8_t *)p + n);
@@ -355,7 +385,7 @@ static void run_rpc(const json &sc) {
         }
     });
     x.peer->setRecvCallback([&x](int id, const std::string &, const tbox::Json &) { x.seen_ids.push_back(id); },
-                            [](int, int, const tbox::Json &) {});
+                            [](int id, int code, const tbox::Json &) { vh::T().line("{\"e\":\"PeerRsp\",\"id\":" + std::to_string(id) + ",\"c\":" + std::to_string(code) + "}"); });
     // peer -> Rpc: the peer's encoder writes into to_rpc
     x.peer->setSendCallback([&x](const void *p, size_t n) { const uint8_t *q = (const uint8_t *)p; x.to_rpc.insert(x.to_rpc.end(), q, q + n); });
     x.loop->runNext([&x] { x.step(); }, "c14-driver");
